@@ -11,6 +11,7 @@ Binders are written with lambda:  forall(lo, hi, lambda k: ...).
 CONTRACTS = {}      # key "file.py::qualname" -> Contract
 LEMMAS = {}         # name -> Lemma
 SPECS = {}          # name -> python function (spec vocabulary; AST re-read by pyvc)
+CONSTS = {}         # name -> python literal usable in spec expressions (both semantics)
 
 
 # ----------------------------------------------------------------------------- types
@@ -65,8 +66,12 @@ class VecT(T):
 
 
 class SeriesT(VecT):
-    def __init__(self, elt, n=None):
+    """pandas Series.  `like` names the parameter (Series, DataFrame or array object) whose index the
+    Series shares -- for results: stated by the contract, checked when the function is verified."""
+
+    def __init__(self, elt, n=None, like=None):
         VecT.__init__(self, elt, "series", n)
+        self.like = like
 
 
 class ListT(VecT):
@@ -163,8 +168,9 @@ def contract(key, **kw):
 
 class Lemma:
     def __init__(self, name, vars, requires, ensures, induct=None, uses=(), trusted=False,
-                 props=(), hints=(), funs=None, notes=""):
+                 props=(), hints=(), funs=None, notes="", nl=False):
         self.name = name
+        self.nl = nl                # products/quotients are real nonlinear terms while proving this lemma
         self.vars = vars            # dict name -> T
         self.requires = list(requires)
         self.ensures = list(ensures)   # [(label, str)] or [str]
@@ -188,3 +194,9 @@ def spec(fn):
     (or if/return chains) in the expression subset, so both semantics apply."""
     SPECS[fn.__name__] = fn
     return fn
+
+
+def const(name, value):
+    """Register a literal constant of the spec vocabulary (visible by name in both semantics)."""
+    CONSTS[name] = value
+    return value
